@@ -36,8 +36,8 @@ def sh(cmd, **kw):
 
 def repo_state():
     head = sh("git -C /repo rev-parse HEAD").stdout.strip()
-    dirty = sh("git -C /repo status --porcelain -- crates").stdout.strip()
-    return {"head": head, "dirty_files": [l[3:] for l in dirty.splitlines()]}
+    dirty = sh("git -C /repo status --porcelain -- crates").stdout
+    return {"head": head, "dirty_files": [l[3:] for l in dirty.splitlines() if l.strip()]}
 
 
 def sync_lock():
@@ -503,5 +503,27 @@ def replay_file(path):
         log(txt)
         log("replay of %s on harness %s: %s" % (path, d["harness"], st))
         return 1 if st in ("fail", "hang") else 0
+    if d.get("engine") == "engineF":
+        from . import engine_f, registry
+        mir, msg = engine_f.dump_mir()
+        if mir is None:
+            log(msg)
+            return 2
+        fns, msg2 = engine_f.translate(mir)
+        if fns is None:
+            log(msg2)
+            return 2
+        pr = None
+        for eng_owner in registry.PROPS.values():
+            for e in eng_owner.get("engine_props", []):
+                if e["name"] == d["prop"] and (pr is None or list(e.get("extra", ())) == d.get("extra", [])):
+                    pr = e
+        if pr is not None and pr.get("replay") == "c-native":
+            st, txt = engine_f.c_native_check(d["prop"], pr["inputs"], d["inputs_f64_bits"], d.get("extra", pr.get("extra", ())))
+        else:
+            st, txt = engine_f.native_check(d["prop"], d["inputs_f64_bits"])
+        log(txt)
+        log("replay of %s: %s" % (path, st))
+        return 1 if st == "fail" else 0
     log("unknown replay engine in %s" % path)
     return 2
